@@ -10,6 +10,7 @@ VERIF = os.path.dirname(os.path.dirname(os.path.abspath(__file__)))
 ORIGIN = {
     "R2": "round 2: an independent sub-agent that saw only the property text and its own scratch worktree, asked for ONE change that is as hard to detect as possible for a generate-and-compare checker",
     "R3": "round 3: an independent sub-agent that saw only the property text, its own scratch worktree and a list of the kinds of change earlier rounds had already tried, asked for ONE change of a different kind that is as hard to detect as possible",
+    "R7": "round 7: as round 6 (prompt selftest/prompts/round7.tmpl: the list of already-tried kinds also names the round-6 kinds)",
     "R6": "round 6: as round 5 (prompt selftest/prompts/round6.tmpl: the list of already-tried kinds also names the round-5 kinds)",
     "R5": "round 5: as round 4 (prompt selftest/prompts/round5.tmpl: the list of already-tried kinds also names the round-4 kinds)",
     "R4": "round 4: as round 3 (prompt selftest/prompts/round4.tmpl: the list of already-tried kinds also names the round-3 kinds)",
